@@ -377,6 +377,21 @@ Definition ip6b (a : bytes) : bool := lenb a 16 && okb a.
 Definition cfgb (c : cfg) : bool :=
   macb (host_mac c) && ip4b (host_ip4 c) && (ip6b (host_lla c) || lenb (host_lla c) 0)
   && macb (router_mac c) && ip4b (router_ip4 c).
+(* Router Advertisement: what must be sent, stated without the model's marshalling functions.  A request is
+   honoured iff there is a prefix, every prefix has a length <= 128 and no bit set beyond it, an RDNSS option (if
+   asked for) names a server, and the message (16 bytes of header, 32 per prefix, 8 + 16 per server, DNSSL 16,
+   MTU 8, SLLA 8) fits the 1522-byte buffer after the Ethernet and IPv6 headers: <= 1468 bytes (RFC 8106 5.1
+   puts no smaller bound on the number of servers than the option length octet: 127).  Else: refused. *)
+Definition host_bits_zero (plen : N) (p : bytes) : bool :=
+  forallb (fun i => let i := N.of_nat i in
+             (i <? plen) || negb (N.testbit (nth (N.to_nat (i / 8)) p 0) (7 - i mod 8))) (seq 0 128).
+Definition ra_must_send (pf : list (N * bytes)) (rd : option (N * list bytes)) : bool :=
+  negb (match pf with [] => true | _ => false end)
+  && forallb (fun p => (fst p <=? 128) && host_bits_zero (fst p) (snd p)) pf
+  && match rd with Some (_, []) => false | _ => true end
+  && (16 + 32 * N.of_nat (List.length pf)
+      + match rd with Some (_, srv) => 8 + 16 * N.of_nat (List.length srv) | None => 0 end
+      + 32 <=? 1468).
 Definition code (refuse : bool) (hyps : bool) : N := if refuse then 0 else if hyps then 1 else 3.
 Definition optokb (o : N * bytes) : bool :=
   (0 <? fst o) && (fst o <? 255) && Nat.leb (List.length (snd o)) 255 && okb (snd o)
@@ -416,7 +431,7 @@ Definition adm_of (kind : string) (c : cfg) (rest : list string) : N :=
             if macb (b dm) && ip6b (b di)
                && forallb (fun p => (fst p <? 256) && ip6b (snd p)) pf
                && match rd with Some (_, srv) => forallb ip6b srv | None => true end
-            then 2 else 3
+            then (if ra_must_send pf rd then 1 else 0) else 3
         | _, _ => 3
         end
       else 3
